@@ -3,7 +3,7 @@ CONSTANTS
   MaxInv = 9
   TxU <- TxUDef
   Lists <- ListsC02
-  CbModes = {"zero", "over"}
+  CbModes = {"zero"}
   Dts = {1}
   H0 = 101
   BaseDt = 1
